@@ -3,6 +3,7 @@ import JSight.Model.Context
 import JSight.Model.Paste
 import JSight.Model.Bans
 import JSight.Model.Include
+import JSight.Props.C05_Parens
 /-!
 Line-protocol driver of the context-resolution and paste-expansion models.
 
@@ -67,6 +68,18 @@ def handle (line : String) : String :=
     | some ts => match resolve ts with
       | .ok f => "ok" ++ showForest f
       | .error e => showCtxErr e
+  | "parens" :: id :: toks =>
+    -- the token stream in which the directive `id` is followed by "(" and its subtree by ")":
+    -- the ids of the directives in order, ")" for a closing parenthesis
+    match parseToks (toks.filter (· != "")), id.toNat? with
+    | some ts, some id => match resolve ts with
+      | .error _ => "skip"
+      | .ok f =>
+        "ok " ++ String.intercalate " " ((flattenForest (C05P.markForest id f)).map fun t =>
+          match t with
+          | .dir d => toString d.id
+          | .close => ")")
+    | _, _ => "bad-arg"
   | "expand" :: toks =>
     match parseToks (toks.filter (· != "")) with
     | none => "bad-arg"
